@@ -320,7 +320,7 @@ mod blocks {
         // https://learn.microsoft.com/en-us/windows/win32/direct3d10/d3d10-graphics-programming-guide-resources-block-compression#bc3
         let (alpha_bytes, bc1_bytes) = split_16(block_bytes);
 
-        let mut pixels = bc1_u8_rgba(bc1_bytes);
+        let mut pixels = bc1_no_default_u8_rgba(bc1_bytes);
         let alpha = bc4u_gray(alpha_bytes);
 
         for i in 0..4 {
@@ -334,7 +334,7 @@ mod blocks {
     pub(crate) fn bc3_u8_rgb(block_bytes: [u8; 16]) -> [[u8; 3]; 16] {
         // https://learn.microsoft.com/en-us/windows/win32/direct3d10/d3d10-graphics-programming-guide-resources-block-compression#bc3
         let (_, bc1_bytes) = split_16(block_bytes);
-        let pixels = bc1_u8_rgba(bc1_bytes);
+        let pixels = bc1_no_default_u8_rgba(bc1_bytes);
         pixels.map(|[r, g, b, _]| [r, g, b])
     }
     pub(crate) fn bc3_rxgb_u8_rgb(block_bytes: [u8; 16]) -> [[u8; 3]; 16] {
